@@ -46,11 +46,16 @@ def in_waiter_code(txt):
 
 # ------------------------------------------------------------------ E2
 def graph_replay(ctx, drv, tag, kinds, events, maxops, state):
-    r = ctx.tlc('MCWaiter', mc_cfg(kinds, events, maxops), SPEC, name='MCWaiter-graph-' + tag, dump_dot=True, must_pass=True)
+    r = ctx.tlc('MCWaiter', mc_cfg(kinds, events, maxops), SPEC, name='MCWaiter-graph-' + tag, dump_dot=True, must_pass=True,
+                coverage=(tag == 'a'))
+    if tag == 'a':
+        z = ctx.zero_coverage(r)
+        if z or not r.cov:
+            raise vlib.Inconclusive('vacuity: actions never taken in MCWaiter: %s' % z)
     script, stats = vlib.graph_script(ctx, r, extra=dict(cb=kinds[0], ch=kinds[1]))
     sp = os.path.join(ctx.work, 'waiter-graph-%s.json' % tag)
     vlib.write_json(sp, script)
-    out = ctx.run([drv, 'graph', sp], timeout=1200)
+    out = ctx.run([drv, 'graph', sp], timeout=ctx.pick(300, 1200))
     res = json.loads(out.stdout)
     st = state.setdefault('graph', dict(graph_states=0, graph_edges=0, edges_replayed=0, paths=0, replay_steps=0,
                                         notifies=0, takes=0, callbacks=0))
@@ -100,6 +105,7 @@ def graph_replay(ctx, drv, tag, kinds, events, maxops, state):
         if not again:
             raise vlib.Inconclusive('graph mismatch not reproducible: %s' % mm)
         state['violations'] += 1
+        replay['script'] = mini      # `vcheck C17 --replay <file>` re-runs exactly this path on the real Queue
         if state['violations'] <= 4:
             ctx.violation('waiter.Queue disagrees with Waiter P-spec at step %d of %s: %s want=%s got=%s' % (
                 mm['step'], steps, mm['what'], mm.get('want'), str(mm.get('got'))[:300]), replay)
@@ -110,23 +116,37 @@ def graph_replay(ctx, drv, tag, kinds, events, maxops, state):
 # ------------------------------------------------------------------ E3 / E4
 def histories(ctx, drv, tag, seed, hists, G, K, state, max_reruns=4):
     rp = os.path.join(ctx.work, 'hist-%s.ndjson' % tag)
-    out = ctx.run([drv, 'race', rp, str(seed), str(hists), str(G), str(K)], timeout=1800)
+    out = ctx.run([drv, 'race', rp, str(seed), str(hists), str(G), str(K)], timeout=ctx.pick(300, 1800))
     summ = json.loads(out.stdout)
     segs = vlib.split_segments(vlib.read_ndjson(rp))
     if summ.get('stopped'):
-        last = segs.pop()
-        bad = [e for e in last if e.get('ev') in ('panic', 'hang')]
-        inw = any(in_waiter_code(e.get('stack', '') + ' '.join(e.get('stacks', []))) for e in bad)
-        what = 'history %d: operation %s' % (len(segs), 'panicked: %s' % bad[0].get('msg') if bad and bad[0]['ev'] == 'panic'
-                                             else 'never returned (quiescent: %s)' % (bad[0].get('states') if bad else '?'))
-        if not bad or not inw:
-            raise vlib.Inconclusive('driver stopped (%s) outside waiter code: %s' % (summ['stopped'], what))
-        state['violations'] += 1
-        ctx.violation(what + ' - every Register/Unregister/Notify of a contract-respecting history must return', dict(kind=tag, seed=seed, events=last))
+        # the driver ended early: the last history is incomplete.  What it logged is still real behaviour
+        # and is validated below (without the driver's own marker events); the reason is classified here.
+        last = segs[-1]
+        marks = [e for e in last if e.get('ev') in ('panic', 'hang', 'overrun')]
+        segs[-1] = [e for e in last if e.get('ev') not in ('panic', 'hang', 'overrun')]
+        if not marks:
+            raise vlib.Inconclusive('driver stopped (%s) without a marker event' % summ['stopped'])
+        m0 = marks[0]
+        if m0['ev'] == 'overrun':
+            state['overrun'] = True      # more callbacks than all notifies can owe: TLC rejects the surplus cb below
+        elif m0['ev'] == 'hang' and m0.get('spinning'):
+            state['spinning'].append(dict(kind=tag, seed=seed, events=last))
+        else:
+            txt = m0.get('stack', '') + ' '.join(m0.get('stacks', []))
+            what = 'history %d: %s' % (len(segs) - 1, 'operation panicked: %s' % m0.get('msg') if m0['ev'] == 'panic'
+                                       else 'operations never returned (quiescent, goroutines parked: %s)' % m0.get('states'))
+            if not in_waiter_code(txt):
+                raise vlib.Inconclusive('driver stopped (%s) outside waiter code: %s\n%s' % (summ['stopped'], what, txt[:1500]))
+            state['violations'] += 1
+            ctx.violation(what + ' - every Register/Unregister/Notify of a contract-respecting history must return',
+                          dict(kind=tag, seed=seed, marker=m0, events=last))
     elif len(segs) != hists:
         raise vlib.Inconclusive('driver produced %d histories, expected %d' % (len(segs), hists))
     acc, rej = vlib.validate_segments(ctx, 'TraceWaiter', TCFG, SPEC, segs, name=tag, max_reruns=max_reruns, timeout=2400)
     ctx.traces += acc
+    if state.pop('overrun', False) and not rej:
+        raise vlib.Inconclusive('driver reported a callback overrun but TLC accepted every history')
     for si, ln in rej:
         state['violations'] += 1
         e = segs[si][ln] if ln < len(segs[si]) else None
@@ -207,7 +227,7 @@ def selftests(ctx, segs, rejected):
     acc, rej = vlib.validate_segments(ctx, 'TraceWaiter', TCFG, SPEC, GOOD, name='self-good', count=False)
     if rej:
         raise vlib.Inconclusive('soundness self-test: legitimate hand-written history %d rejected at event %d' % rej[0])
-    bad = BAD if ctx.thorough() else BAD[:3]
+    bad = BAD if ctx.thorough() else BAD[:2]
     done = []
     # corrupt real histories: drop a callback event, flip a take result
     real = []
@@ -238,21 +258,41 @@ def selftests(ctx, segs, rejected):
     ctx.extra['soundness_selftest'] = '%d legitimate hand-written histories accepted' % len(GOOD)
 
 
+def replay(ctx, obj):
+    """Re-run a recorded graph counterexample (one path) on the real Queue."""
+    rp = obj.get('replay', {})
+    if rp.get('kind') != 'graph' or 'script' not in rp:
+        raise vlib.Inconclusive('only graph replays can be re-run; concurrent histories are schedule dependent (the recorded events are the evidence)')
+    drv = ctx.go_build('waiterd')
+    mp = os.path.join(ctx.work, 'waiter-replay.json')
+    vlib.write_json(mp, rp['script'])
+    rr = json.loads(ctx.run([drv, 'graph', mp], timeout=300).stdout)
+    ctx.traces += 1
+    ctx.sample(dict(kind='graph-path', steps=rp['steps']))
+    ctx.extra['evaluations'] = 1
+    for mm in rr['mismatches']:
+        if mm['kind'] != 'drift':
+            ctx.violation('replayed: %s want=%s got=%s' % (mm['what'], mm.get('want'), str(mm.get('got'))[:300]), rp)
+            break
+
+
 def run(ctx):
     drv = ctx.go_build('waiterd')
     state = dict(violations=0, spinning=[])
 
     # ---- E1: closed model, P-spec and I-spec in lockstep, all op sequences up to the bound
     for tag, kinds, n in ctx.pick([('a', K0, 6)], [('a', K0, 8), ('b', K1, 7)]):
-        r = ctx.tlc('MCWaiter', mc_cfg(kinds, ['in', 'out'], n), SPEC, name='MCWaiter-%s%d' % (tag, n), coverage=True,
+        # coverage (vacuity guard) on the thorough tier; on the quick tier the guard runs on graph model `a` below
+        r = ctx.tlc('MCWaiter', mc_cfg(kinds, ['in', 'out'], n), SPEC, name='MCWaiter-%s%d' % (tag, n), coverage=ctx.thorough(),
                     must_pass=True, timeout=3000)
-        z = ctx.zero_coverage(r)
-        if z or not r.cov:
-            raise vlib.Inconclusive('vacuity: actions never taken in MCWaiter: %s' % z)
+        if ctx.thorough():
+            z = ctx.zero_coverage(r)
+            if z or not r.cov:
+                raise vlib.Inconclusive('vacuity: actions never taken in MCWaiter: %s' % z)
     ctx.extra['exhaustive'] = True
 
     # ---- E2: every transition of the state graph replayed on the real Queue
-    graphs = ctx.pick([('a', K0, ['in', 'out'], 4), ('b', K0, ['in'], 6), ('c', K1, ['in'], 5)],
+    graphs = ctx.pick([('a', K0, ['in', 'out'], 4), ('b', K1, ['in'], 6)],
                       [('a', K0, ['in', 'out'], 5), ('b', K0, ['in'], 7), ('c', K1, ['in', 'out'], 5), ('d', K1, ['in'], 7)])
     for tag, kinds, events, n in graphs:
         graph_replay(ctx, drv, tag, kinds, events, n, state)
